@@ -50,6 +50,18 @@ from .dot import node_to_dot
 from .rdf import RDFMapperCallbackType, node_to_rdf
 
 
+def _index_by_identity(nodes: list, node: Any) -> int:
+    """Like ``list.index()``, but compare by identity.
+
+    ``list.index()`` and ``list.remove()`` use ``==``, and ``Node.__eq__``
+    compares the embedded data, so they may pick another node than `node`.
+    """
+    for i, n in enumerate(nodes):
+        if n is node:
+            return i
+    raise ValueError(f"{node} is not in list")
+
+
 # ------------------------------------------------------------------------------
 # - Node
 # ------------------------------------------------------------------------------
@@ -341,7 +353,8 @@ class Node:
                             n._data = new_data
                 else:
                     # Move this one node to another slot in the map
-                    node_map[self._data_id].remove(self)
+                    clones = node_map[self._data_id]
+                    del clones[_index_by_identity(clones, self)]
                     try:  # are we adding to existing clones again?
                         node_map[new_data_id].append(self)
                     except KeyError:  # now a singleton with a new data_id
@@ -396,14 +409,14 @@ class Node:
         """Predecessor or None, if node is first sibling."""
         if self.is_first_sibling():
             return None
-        idx = self._parent._children.index(self)  # pyright: ignore[reportOptionalMemberAccess]
+        idx = _index_by_identity(self._parent._children, self)  # type: ignore
         return self._parent._children[idx - 1]  # pyright: ignore[reportOptionalSubscript]
 
     def next_sibling(self) -> Node | None:
         """Return successor or None, if node is last sibling."""
         if self.is_last_sibling():
             return None
-        idx = self._parent._children.index(self)  # type: ignore
+        idx = _index_by_identity(self._parent._children, self)  # type: ignore
         return self._parent._children[idx + 1]  # type: ignore
 
     def last_sibling(self) -> Node:
@@ -457,7 +470,7 @@ class Node:
 
     def get_index(self) -> int:
         """Return index in sibling list."""
-        return self._parent._children.index(self)  # type: ignore
+        return _index_by_identity(self._parent._children, self)  # type: ignore
 
     # --------------------------------------------------------------------------
 
@@ -660,7 +673,7 @@ class Node:
                     f"`before=node` ({before._parent}) "
                     f"must be a child of target node ({self})"
                 )
-            idx = children.index(before)  # raises ValueError
+            idx = _index_by_identity(children, before)  # raises ValueError
             children.insert(idx, node)
         else:
             children.append(node)
@@ -778,7 +791,7 @@ class Node:
                 f"`before=node` ({before}) must be another child of {new_parent}"
             )
 
-        self._parent._children.remove(self)  # type: ignore
+        del self._parent._children[_index_by_identity(self._parent._children, self)]  # type: ignore
         if not self._parent._children:  # store None instead of `[]`
             self._parent._children = None
         self._parent = new_parent
@@ -794,7 +807,7 @@ class Node:
             new_parent._children = [self]  # type: ignore
         elif isinstance(before, Node):
             assert before._parent is new_parent, before
-            idx = target_siblings.index(before)  # raise ValueError if not found
+            idx = _index_by_identity(target_siblings, before)  # raise ValueError
             target_siblings.insert(idx, self)
         elif isinstance(before, int):
             target_siblings.insert(before, self)
@@ -824,7 +837,7 @@ class Node:
             self.remove_children()
 
         pc = self._parent._children
-        pc.remove(self)  # type: ignore
+        del pc[_index_by_identity(pc, self)]  # type: ignore
         if not pc:  # store None instead of `[]`
             pc = self._parent._children = None
 
